@@ -1,6 +1,11 @@
 pub mod c01;
 pub mod c02;
 pub mod c03;
+pub mod c04;
+pub mod c05;
+pub mod c06;
+pub mod c08;
+pub mod c11;
 pub mod c14;
 
 use crate::run::Cfg;
@@ -10,6 +15,11 @@ pub fn dispatch(cfg: &Cfg) -> i32 {
         "C01" => c01::run(cfg),
         "C02" => c02::run(cfg),
         "C03" => c03::run(cfg),
+        "C04" => c04::run(cfg),
+        "C05" => c05::run(cfg),
+        "C06" => c06::run(cfg),
+        "C08" => c08::run(cfg),
+        "C11" => c11::run(cfg),
         "C14" => c14::run(cfg),
         other => {
             eprintln!("unknown property {other}");
